@@ -26,7 +26,8 @@ TECHNIQUE = 'bounded exhaustive enumeration of programs x every layout transform
 RULE = ('programs: S1 term shapes over 6 names (RHS and LHS), S4 systems over 6 (quick) / 12 (thorough) right-hand sides, specials; transformations T1 comments, T2 blank lines, '
         'T3 extra/removed whitespace at every token boundary, T3b space before an index bracket, T4 spaces inside { } < > [ ], T5 explicit [0], T6 parenthesise-and-break after every '
         'operator, T6 redundant brackets round a single operand, T7 statement permutations; scripts with fenced/inline verbatim code under comments and blanks on every line, duplicate verbatim statements; merge law and fixed point on every program. non-trivial = variant whose text differs from the base layout and is parsed'
-        " Names include a soft keyword and '_'; operands bracketed with tab / blanks / line break inside; line break or tab just inside index brackets; the fixed-point law on the normal form reached from every whitespace or bracket layout.")
+        " Names include a soft keyword and '_'; operands bracketed with tab / blanks / line break inside; line break or tab just inside index brackets; the fixed-point law on the normal form reached from every whitespace or bracket layout."
+        ' Blank, whitespace-only and comment-only lines inside fenced blocks.')
 ASSUMPTIONS = [
     'no leading whitespace on a statement (documented IndentationError); no space between the sign and the digits of an index',
     'a space is only removed where Python tokenises the text identically with and without it and the neighbours are not both alphanumeric',
@@ -496,6 +497,11 @@ def fence_variants(base):
         elif inside:
             # a comment or blanks after a line of verbatim code: the code (and its indentation) stays what it was
             yield 'T1-comment-inside-fence', '\n'.join(lines[:i] + [line + '  # note'] + lines[i + 1:])
+            # a blank, a whitespace-only or a comment-only line between the lines of a fenced block (before this line; after the last one)
+            for filler, tag in (('', 'T2-blank-line-inside-fence'), ('    ', 'T2-whitespace-line-inside-fence'), ('# only a comment', 'T1-comment-line-inside-fence')):
+                yield tag, '\n'.join(lines[:i] + [filler] + lines[i:])
+                if i + 1 < len(lines) and lines[i + 1].startswith('```'):
+                    yield tag, '\n'.join(lines[:i + 1] + [filler] + lines[i + 1:])
         elif not line.startswith((' ', '`')) and '`' not in line:
             yield 'T1-comment-after-equation', '\n'.join(lines[:i] + [line + '  # note'] + lines[i + 1:])
         for blank in (' ', '   ', '\t'):
